@@ -1564,6 +1564,8 @@ class Interp:
         fr.loop_ord += 1
         oname = f"{self.ctx.target}#loop[{spec.name}]"
         n = seq.n
+        if z3.is_expr(n):
+            ex.lengths.append(n)
         ex.oblige(oname + ":init", spec.inv(self, fr, z3.IntVal(0), seq))
         body_mode = ex.decide(None, f"loop[{spec.name}]:body")
         for name, mk in spec.havoc.items():
